@@ -106,7 +106,7 @@ impl Property for C07 {
                     o.detail = json!({"at": info.loc, "message": info.msg});
                     return o;
                 }
-                let head: String = info.msg.split('(').next().unwrap_or("").chars().take(70).collect();
+                let head: String = info.msg.split(|ch| ch == '(' || ch == ':').next().unwrap_or("").chars().take(70).collect();
                 return Outcome::fail(
                     format!("panic@{} {}", vkit::panics::norm_loc(&info.loc).split(':').next().unwrap_or(""), vkit::panics::norm_msg(head.trim())),
                     json!({"source": vkit::util::truncate(&src, 2500), "opt_level": opt, "target": target, "panic_at": info.loc, "message": vkit::util::truncate(&info.msg, 300)}),
